@@ -1,6 +1,8 @@
 #!/bin/sh
 # Builds the framework offline from files on disk.
-cd /verif || exit 2
+ROOT=$(cd "$(dirname "$0")" && pwd) || exit 2
+export VERIF_ROOT="$ROOT"
+cd "$ROOT" || exit 2
 export GOFLAGS=-mod=mod GOPROXY=off
 mkdir -p bin evidence
 go build -o bin/vcheck ./cmd/vcheck || exit 2
